@@ -578,7 +578,7 @@ Proof.
 Qed.
 
 Lemma take_ok n (l : list Z) : (n <= length l)%nat -> take n l = Some (firstn n l, skipn n l).
-Proof. intros H. unfold take. destruct (Nat.leb_spec n (length l)); [reflexivity | lia]. Qed.
+Proof. intros H. rewrite take_unfold. destruct (Nat.leb_spec n (length l)); [reflexivity | lia]. Qed.
 
 (* reading an in-bounds field *)
 Lemma read_value_ok le n s off :
